@@ -128,3 +128,24 @@ def check(run):
     loops = [n for n in st.all_nodes() if n['k'] == 'for' and any(x is c for c in ins for x in walk(n['body']))]
     run.check(len(ins) == 1 and len(loops) == 1 and 'p.buffer.end()' in q.render(st, ins[0]['args'][0]), 'R4', 'datagram-whole', st.norm, st.loc(), 'the datagram is not the concatenation of all send buffers appended in order', 'every buffer appended at the end of one packet')
     run.floor('R4', 8)
+
+
+def cwnd_follows_mss(run, rule='R4'):
+    """Every function that assigns m_mss re-derives m_cwnd from it afterwards (the window must admit a segment of the new size)."""
+    fx = run.fx
+    n = 0
+    for fn in fx.repo_functions():
+        if fn.cls != T or fn.kind == 'ctor' or fn.cfg is None or fn.d.get('defaulted'):
+            continue
+        mss = [x for x in q.field_accesses(fn, {T + '::m_mss'}) if x.kind == 'assign' and q.is_this(q.access_root(x.node))]
+        if not mss:
+            continue
+        n += 1
+        run.touch(fn)
+        cw = [x for x in q.field_accesses(fn, {T + '::m_cwnd'}) if x.kind == 'assign' and q.is_this(q.access_root(x.node))]
+        ok = all(any(q.precedes(fn, m.site, c.site) and q.linform(fn, c.site['rhs']) == ({'m_mss': 2}, 0) for c in cw) for m in mss)
+        run.check(ok, rule, 'cwnd-follows-mss', fn.norm, fn.loc(mss[0].node),
+                  'm_mss is assigned without m_cwnd being re-derived from it afterwards: with a path MTU above the stale window the test in_flight + mss > cwnd holds from the start, every write reports would_block and no ACK can ever wake the writer',
+                  'm_cwnd = m_mss * 2 follows every assignment of m_mss')
+    if n < 3:
+        run.broke('fewer than 3 functions assign m_mss (async_connect, internal_connect, close confirmed by hand)')
